@@ -283,11 +283,14 @@ class Lexer:
                     new_str += c
         # remove current indentation
         indentation_str = ' ' * _indent_level_to_spaces_count(self.cur_indent)
-        lines_without_indentation = [
-            line.replace(indentation_str, '', 1)
-            # (not splitlines(): that drops a final line break and also
-            # splits at \r, \x0b, \x0c, \x1c-\x1e, \x85, U+2028 and U+2029)
-            for line in new_str.split('\n')]
+        # Only continuation lines carry the indentation of the block, and only
+        # at their start.
+        # (not splitlines(): that drops a final line break and also
+        # splits at \r, \x0b, \x0c, \x1c-\x1e, \x85, U+2028 and U+2029)
+        lines = new_str.split('\n')
+        lines_without_indentation = lines[:1] + [
+            line[len(indentation_str):] if line.startswith(indentation_str) else line
+            for line in lines[1:]]
         t.value = '\n'.join(lines_without_indentation)
         return t
 
